@@ -126,6 +126,12 @@ impl Edge {
             && self.verifying_key.eq(&edg.verifying_key)
     }
 
+    /// verification hook: accessor for the private digest
+    #[cfg(feature = "verif")]
+    pub fn verif_hash(&self) -> blake3::Hash {
+        self.hash()
+    }
+
     fn hash(&self) -> blake3::Hash {
         let mut hasher = blake3::Hasher::new();
         hasher.update(&self.src);
